@@ -40,20 +40,21 @@ type ParamDecl struct {
 }
 
 type Contract struct {
-	Key      string // canonical function key
-	Pkg      *packages.Package
-	Requires []*Clause
-	Ensures  []*Clause
-	Modifies []*Clause
+	Key         string // canonical function key
+	Pkg         *packages.Package
+	Requires    []*Clause
+	Ensures     []*Clause
+	Modifies    []*Clause
+	Slots       []*Clause // JSON slot specifications: Tag is the key, Expr the value written under it
 	ExitAsserts []*Clause // checked at every return with the function's locals in scope; not visible to callers
-	Loops    map[int]*LoopContract
-	Ghost    []ParamDecl // ghost result variables
-	Trusted  bool        // extern / assumed
-	Pure     bool
-	Src      string
-	Opts     map[string]string
-	Params   []string // explicit parameter names (externs)
-	Results  []string
+	Loops       map[int]*LoopContract
+	Ghost       []ParamDecl // ghost result variables
+	Trusted     bool        // extern / assumed
+	Pure        bool
+	Src         string
+	Opts        map[string]string
+	Params      []string // explicit parameter names (externs)
+	Results     []string
 }
 
 type Macro struct {
@@ -100,26 +101,26 @@ type Axiom struct {
 }
 
 type World struct {
-	Fset      *token.FileSet
-	Pkgs      map[string]*packages.Package // by path
-	AllPkgs   map[string]*packages.Package // including deps
-	Reg       *Registry
-	Contracts map[string]*Contract
-	Macros    map[string]*Macro
-	Uninterps map[string]*Uninterp
-	Lemmas    []*Lemma
-	Axioms    []*Axiom
+	Fset       *token.FileSet
+	Pkgs       map[string]*packages.Package // by path
+	AllPkgs    map[string]*packages.Package // including deps
+	Reg        *Registry
+	Contracts  map[string]*Contract
+	Macros     map[string]*Macro
+	Uninterps  map[string]*Uninterp
+	Lemmas     []*Lemma
+	Axioms     []*Axiom
 	GlobalInvs []*GlobalInv
-	FuncDecls map[string]*ast.FuncDecl
-	FuncPkg   map[string]*packages.Package
-	FuncObj   map[string]*types.Func
-	NoOps     map[string]bool // functions treated as no-ops (logging)
-	NoReturn  map[string]bool // functions that terminate the process (log.Fatal)
-	Problems  []string
-	RepoDir   string
-	GhostPkg  *types.Package
-	ChanInvs  map[string]*ObjInv // by global variable full name (pkgpath.name)
-	PoolInvs  map[string]*ObjInv
+	FuncDecls  map[string]*ast.FuncDecl
+	FuncPkg    map[string]*packages.Package
+	FuncObj    map[string]*types.Func
+	NoOps      map[string]bool // functions treated as no-ops (logging)
+	NoReturn   map[string]bool // functions that terminate the process (log.Fatal)
+	Problems   []string
+	RepoDir    string
+	GhostPkg   *types.Package
+	ChanInvs   map[string]*ObjInv // by global variable full name (pkgpath.name)
+	PoolInvs   map[string]*ObjInv
 	Intrinsics map[string][]string
 }
 
@@ -139,6 +140,13 @@ func loadWorld(repo string, verifDir string) (*World, error) {
 	tn := types.NewTypeName(token.NoPos, gp, "Stream", nil)
 	types.NewNamed(tn, strm, nil)
 	gp.Scope().Insert(tn)
+	var jf []*types.Var
+	for _, n := range []string{"Ph", "Dp", "F1", "F2", "F3", "F4", "F5", "F6"} {
+		jf = append(jf, types.NewField(token.NoPos, gp, n, tMath, false))
+	}
+	jtn := types.NewTypeName(token.NoPos, gp, "JSON", nil)
+	types.NewNamed(jtn, types.NewStruct(jf, nil), nil)
+	gp.Scope().Insert(jtn)
 	gp.MarkComplete()
 	w.GhostPkg = gp
 	cfg := &packages.Config{
@@ -270,7 +278,7 @@ type rawDirective struct {
 }
 
 var topKeywords = map[string]bool{"ghost": true, "pred": true, "spec": true, "uninterp": true, "axiom": true, "lemma": true, "func": true, "noop": true, "ifaceas": true, "extern": true, "globalinv": true, "intrinsic": true, "typeas": true, "chaninv": true, "poolinv": true, "noreturn": true}
-var subKeywords = map[string]bool{"requires": true, "ensures": true, "modifies": true, "loop": true, "invariant": true, "decreases": true, "trusted": true, "pure": true, "ghostout": true, "opt": true, "params": true, "results": true, "havoc": true, "step": true, "exitassert": true}
+var subKeywords = map[string]bool{"requires": true, "ensures": true, "modifies": true, "loop": true, "invariant": true, "decreases": true, "trusted": true, "pure": true, "ghostout": true, "opt": true, "params": true, "results": true, "havoc": true, "step": true, "exitassert": true, "slot": true}
 
 func readDirectives(path string) ([]rawDirective, error) {
 	f, err := os.Open(path)
@@ -776,6 +784,16 @@ func (w *World) addDirectives(ds []rawDirective, pkg *packages.Package) error {
 						return e
 					}
 					curLoop.Steps = append(curLoop.Steps, cl)
+				case "slot":
+					fs := strings.SplitN(strings.TrimSpace(s.text), " ", 2)
+					if len(fs) != 2 {
+						return fmt.Errorf("%s: expected: slot <key> <expr>", s.src)
+					}
+					e, er := parseCExpr(fs[1])
+					if er != nil {
+						return fmt.Errorf("%s: %v", s.src, er)
+					}
+					c.Slots = append(c.Slots, &Clause{Kind: "slot", Text: fs[1], Expr: e, Src: s.src, Tag: fs[0]})
 				case "exitassert":
 					cl, e := mk()
 					if e != nil {
